@@ -175,7 +175,16 @@ func replayContracts(walk []json.RawMessage, lic int, label string) (*core.Trace
 				cached[a.ID] = true
 			}
 			cs.mu.Unlock()
-			tr.Events = append(tr.Events, core.Ev(map[string]any{"e": "use", "id": a.ID, "sign": a.Sign, "master": a.Master, "ok": ok}))
+			// the same contract / signature / master id as a MASTER key presented to the key generator
+			mk := security.Key(make([]byte, 24))
+			mk.SetSalt(uint16(a.ID) + 1)
+			mk.SetMaster(a.Master)
+			mk.SetContract(a.ID)
+			mk.SetSignature(a.Sign)
+			mk.SetPermissions(security.AllowMaster)
+			mk.SetExpires(time.Unix(0, 0))
+			_, kerr := b.Svc.VerifKeygen().CreateKey(b.RawKey(mk), "a/b/", security.AllowRead, time.Unix(0, 0))
+			tr.Events = append(tr.Events, core.Ev(map[string]any{"e": "use", "id": a.ID, "sign": a.Sign, "master": a.Master, "ok": ok, "mint": kerr == nil}))
 		}
 	}
 	return tr, nil
